@@ -183,6 +183,21 @@ def cases(ctx):
             top = len(full) + 200
             jobs.append((am2, None, 512, top - 512, 0, 1, 0))
             meta.append((am2, None, top, 1, 0))
+    # a question section that does not fit at the small limits: the cut lies in the question section
+    for i in range(ctx.n(1, 3)):
+        qs = []
+        for j in range(rng.choice([6, 8])):
+            nm = [bytes(rng.choice(b"abcdefghijklmnop") for _ in range(50)), b"q%d" % j,
+                  bytes(rng.choice(b"qrstuvwxyz") for _ in range(40)), b"example", b""]
+            qs.append([nm, g.IN, rng.choice([g.A, g.MX, g.TXT]), 0, None, 0, []])
+        secs = [qs, [[qs[0][0], g.IN, g.A, 0, None, 60, [[bytes([10, 0, 0, 1])]]]], [],
+                [[[b"ns"] + qs[1][0][1:], g.IN, g.A, 0, None, 60, [[bytes([10, 0, 0, 2])]]]]]
+        amq = [99, 0x0100, secs, rng.choice([None, [0, 1232, []]]), None]
+        fullq = g.run_render(amq, None, 65535, 0, 0, 0)
+        if not isinstance(fullq, Err):
+            topq = len(fullq) + 3
+            jobs.append((amq, None, 512, topq - 512, 0, 1, 0))
+            meta.append((amq, None, topq, 1, 0))
     for c in clamp:
         yield "clamp", c
     # padding + TSIG + a key name sharing a suffix with names of the message, with a filler of every
@@ -229,6 +244,10 @@ def cases(ctx):
                 starts = sorted(rng.sample(starts, 24))
             seq = [top] + starts[::-1] + starts + [top, starts[0], top]
             yield "reuse:" + ("trunc" if prefer else "raise"), [8, am2, origin, seq, 0, prefer, pad]
+            # max_size 0: the request payload is the limit - at the exact boundaries between two results
+            for b in rng.sample(starts[1:], min(2, len(starts) - 1)):
+                for rq in (b - 1, b):
+                    yield "reqpayload", [1, am2, origin, 0, rq, prefer, pad]
             for _ in range(ctx.n(1, 1)):
                 lo = rng.randrange(512, max(513, top - CHUNK))
                 n = min(CHUNK, top - lo)
@@ -358,7 +377,7 @@ def check_result(am, origin, lim, prefer, pad, w, fail):
     if eff > 65535:
         eff = 65535
     if len(w) > eff:
-        fail("rendered message exceeds its effective size limit", length=len(w), limit=eff, sig="size")
+        fail("rendered message exceeds its effective size limit", length=len(w), effective_limit=eff, sig="size")
     if pad and opt is not None and len(w) % pad:
         fail("padded length is not a multiple of the block size", length=len(w), pad=pad, sig="pad")
     try:
@@ -463,6 +482,14 @@ def oracle(ctx, kind, case, out):
     if op in (1, 10):
         _, am, origin, max_size, reqp, prefer, pad = case
         lim = max_size if max_size else (reqp if reqp else 65535)
+        # the effective limit: max_size 0 means the request payload (or 65535), then clamped to 512..65535;
+        # the result must be the one of an explicit rendering at that limit
+        eff = min(max(lim, 512), 65535)
+        if (max_size != eff or reqp) and kind != "reserve-too-large":
+            ref = normalize(g.run_render(am, origin, eff, 0, prefer, pad))
+            if normalize(out) != ref:
+                fail("max_size=%d request_payload=%d is not rendered like the effective limit %d" % (max_size, reqp, eff),
+                     sig="clamp")
         if isinstance(out, Err):
             if out.code != 20:
                 fail("rendering raised something else than TooBig: " + out.text, sig="exc", exc=out.text)
